@@ -63,9 +63,9 @@ fn parse_levels(toks: &[String]) -> Vec<Level> {
     toks.iter().map(|t| parse_level(t)).collect()
 }
 
-/// `seq te | bids | asks`
-fn parse_body(toks: &[String]) -> OrderBook {
-    let seq: u64 = toks[0].parse().expect("sequence");
+/// `seq te | bids | asks`; `None` (reported as `bad-op`, as the drivers do) when `seq` is not a `u64`
+fn parse_body(toks: &[String]) -> Option<OrderBook> {
+    let seq: u64 = toks[0].parse().ok()?;
     let te = if toks[1] == "-" {
         None
     } else {
@@ -74,7 +74,7 @@ fn parse_body(toks: &[String]) -> OrderBook {
     assert_eq!(toks[2], "|", "bad op");
     let rest = &toks[3..];
     let bar = rest.iter().position(|t| t == "|").expect("second |");
-    OrderBook::new(seq, te, parse_levels(&rest[..bar]), parse_levels(&rest[bar + 1..]))
+    Some(OrderBook::new(seq, te, parse_levels(&rest[..bar]), parse_levels(&rest[bar + 1..])))
 }
 
 const DEPTHS: [usize; 4] = [0, 1, 2, 5];
@@ -197,7 +197,10 @@ fn run() {
                     lines.push(format!("sorted {}", fmt_levels(&ls)));
                 }
                 "cell" => {
-                    let book = parse_body(&op[1..]);
+                    let Some(book) = parse_body(&op[1..]) else {
+                        lines.push("bad-op".into());
+                        continue;
+                    };
                     let cell = OrderBookMapSingle::new(0usize, Arc::default()).book;
                     *cell.write() = book;
                     cells.push(cell.clone());
@@ -276,7 +279,10 @@ fn run() {
                 "re" => queue.push(MarketStreamEvent::Reconnecting(ExchangeId::Mock)),
                 "snap" | "upd" => {
                     let k: usize = op[1].parse().expect("key");
-                    let book = parse_body(&op[2..]);
+                    let Some(book) = parse_body(&op[2..]) else {
+                        lines.push("bad-op".into());
+                        continue;
+                    };
                     lines.push(format!("ev {}", fmt_book_line(&book)));
                     let event = if op[0] == "snap" {
                         OrderBookEvent::Snapshot(book)
@@ -301,7 +307,10 @@ fn run() {
                     }
                 }
                 "depth" => {
-                    let d: usize = op[2].parse().expect("depth");
+                    let Ok(d) = op[2].parse::<usize>() else {
+                        lines.push("bad-op".into());
+                        continue;
+                    };
                     match cell_arg(&op[1]) {
                         Some(c) => lines.push(format!("snap {}", fmt_book_line(&cells[c].read().snapshot(d)))),
                         None => lines.push("bad-op".into()),
@@ -489,6 +498,179 @@ fn manager_case(out: &mut Out, rng: &mut Rng, thorough: bool) {
     out.line(format!("depth {} {}", rng.below(n_cells as u64), rng.pick(&[0u64, 1, 2, 3, 5, 100])));
 }
 
+
+// ---- input-domain family (`d<id>` cases; own random stream, so the `r` / `x` cases stay as they are) ----
+
+const SEQ_EDGES: [u64; 10] = [
+    0,
+    1,
+    4294967295,
+    4294967296,
+    9007199254740993,
+    9223372036854775807,
+    9223372036854775808,
+    18446744073709551614,
+    18446744073709551615,
+    18446744073709551615,
+];
+
+/// year 0, just before / at / after the epoch, now, year 9999 (all inside chrono's range)
+const TIME_EDGES: [&str; 9] =
+    ["-", "-62167219200000", "-1", "0", "1", "1700000000000", "1700000000000", "1700000000001", "253402300799999"];
+
+const DEPTH_EDGES: [&str; 12] = ["0", "1", "2", "3", "4", "6", "7", "8", "16", "100", "9223372036854775808", "18446744073709551615"];
+
+/// signed amounts, pairs that cancel exactly included (`volume_weighed_mid_price` then divides by zero: modelled)
+fn signed_amount(rng: &mut Rng, zero_pct: u64) -> String {
+    if rng.chance(zero_pct) {
+        return (*rng.pick(&["0", "0.0", "-0", "-0.0", "0.000"])).to_string();
+    }
+    (*rng.pick(&["1", "-1", "1", "-1.0", "0.5", "-0.5", "2", "-2", "3.25", "-3.25", "7", "0.001", "-0.001", "12"])).to_string()
+}
+
+/// 1e-8 … 1e12, at most 13 significant digits, positive
+fn wide_amount(rng: &mut Rng, zero_pct: u64) -> String {
+    if rng.chance(zero_pct) {
+        return (*rng.pick(&["0", "0.00000000"])).to_string();
+    }
+    (*rng.pick(&[
+        "0.00000001",
+        "0.00000003",
+        "0.12345678",
+        "1",
+        "99999.99999999",
+        "1000000000000",
+        "999999999999.9",
+        "250000000",
+    ]))
+    .to_string()
+}
+
+fn grid_of(base: i64, step: i64, scale: u32, count: usize) -> Grid {
+    Grid { prices: (0..count as i64).map(|i| dec_str(base + i * step, scale)).collect() }
+}
+
+/// One case of the input-domain family; the class is fixed by the case index:
+///  0 signed     negative amounts (pairs cancelling exactly included), `-0`, prices below / at / above zero
+///  1 edges      sequence numbers 0 … u64::MAX in any order, time_engine year 0 … year 9999, equal and decreasing
+///  2 magnitude  prices at 1e-8 and at 1e12, amounts 1e-8 … 1e12 (products stay within 28 digits)
+///  3 long       sides of 100-260 levels, update lists of up to 300 levels (duplicates of a price, zero amounts)
+///  4 levels     Level's derived order over a wider value set (-0, 1e-8, 1e12, negative amounts, 100.250 = 100.25)
+/// every manager class draws snapshot depths from 0 … usize::MAX.
+fn domain_case(out: &mut Out, rng: &mut Rng, idx: usize) {
+    let class = match idx % 5 {
+        3 if (idx / 5) % 3 != 0 => rng.below(3) as usize,
+        4 if (idx / 5) % 2 != 0 => rng.below(3) as usize,
+        c => c,
+    };
+    if class == 4 {
+        let vals = ["-0", "0", "0.00000001", "-0.00000001", "1000000000000", "-1000000000000", "-1.5", "1.5", "100.25", "100.250", "1"];
+        for _ in 0..rng.range(2, 8) {
+            let l = |rng: &mut Rng| format!("{}:{}", rng.pick(&vals), rng.pick(&vals));
+            let (a, b) = (l(rng), l(rng));
+            out.line(format!("lv {a} {b}"));
+        }
+        let n = rng.range(0, 12);
+        let ls: Vec<String> = (0..n).map(|_| format!("{}:{}", rng.pick(&vals), rng.pick(&vals))).collect();
+        out.line(format!("lsort {}", ls.join(" ")));
+        return;
+    }
+    let grid = match class {
+        0 => {
+            let count = rng.range(2, 7);
+            let (st, sc) = *rng.pick(&[(1i64, 0u32), (5, 1), (1, 4), (1, 8)]);
+            grid_of(-st * rng.range(0, count), st, sc, count as usize)
+        }
+        2 => {
+            let mut g = grid_of(1, 1, 8, rng.range(1, 3) as usize);
+            g.prices.extend(grid_of(100_000_000_000_000 - 2, 1, 2, rng.range(1, 4) as usize).prices);
+            g
+        }
+        3 => {
+            let (b, st, sc) = *rng.pick(&[(100i64, 1i64, 0u32), (99990, 5, 2), (-120, 1, 0)]);
+            grid_of(b, st, sc, rng.range(140, 260) as usize)
+        }
+        _ => Grid::new(rng, 2, 7),
+    };
+    let zero_pct = *rng.pick(&[10u64, 30, 60]);
+    let am = |rng: &mut Rng, zero_pct: u64| match class {
+        0 => signed_amount(rng, zero_pct),
+        2 => wide_amount(rng, zero_pct),
+        _ => amount(rng, zero_pct),
+    };
+    let any = |rng: &mut Rng, max: usize| -> Vec<String> {
+        let len = if rng.chance(15) { 0 } else { rng.range(1, max as i64) as usize };
+        (0..len).map(|_| format!("{}:{}", rng.pick(&grid.prices), am(rng, zero_pct))).collect()
+    };
+    let clean = |rng: &mut Rng, keep: u64| -> Vec<String> {
+        let mut ps: Vec<&String> = grid.prices.iter().filter(|_| rng.chance(keep)).collect();
+        shuffle(rng, &mut ps);
+        ps.into_iter().map(|p| format!("{p}:{}", am(rng, 0))).collect()
+    };
+    let edges = class == 1 || rng.chance(15);
+    let time_of = |rng: &mut Rng| if edges { (*rng.pick(&TIME_EDGES)).to_string() } else { time(rng) };
+    let max_levels = if class == 3 { *rng.pick(&[12usize, 80, 300]) } else { 12 };
+    let keep = if class == 3 { *rng.pick(&[60u64, 90, 100]) } else { 55 };
+    let mut seq: u64 = if rng.chance(20) { 0 } else { rng.range(0, 1000) as u64 };
+    let next_seq = |rng: &mut Rng, seq: u64| {
+        if edges && rng.chance(60) {
+            *rng.pick(&SEQ_EDGES)
+        } else {
+            match rng.below(10) {
+                0 => seq,
+                1 => seq.saturating_sub(rng.below(5)),
+                _ => seq.saturating_add(1 + rng.below(3)),
+            }
+        }
+    };
+    let n_cells = rng.range(1, 3) as usize;
+    for _ in 0..n_cells {
+        if rng.chance(40) {
+            out.line("celld");
+        } else {
+            seq = next_seq(rng, seq);
+            let dirty = class != 3 && rng.chance(30);
+            let (b, a) = if dirty { (any(rng, max_levels), any(rng, max_levels)) } else { (clean(rng, keep), clean(rng, keep)) };
+            out.line(format!("cell {seq} {} | {} | {}", time_of(rng), b.join(" "), a.join(" ")));
+        }
+    }
+    let n_keys = rng.range(1, 3) as usize;
+    if rng.chance(30) {
+        out.line(format!("single {} {}", rng.below(n_keys as u64), rng.below(n_cells as u64)));
+    } else {
+        let pairs: Vec<String> =
+            (0..rng.range(1, 4)).map(|_| format!("{}:{}", rng.below(n_keys as u64), rng.below(n_cells as u64))).collect();
+        out.line(format!("multi {}", pairs.join(" ")));
+    }
+    let len = if class == 3 { rng.range(1, 6) } else { rng.range(1, 20) };
+    let run_pct = *rng.pick(&[35u64, 100]);
+    for _ in 0..len {
+        if rng.chance(12) {
+            out.line(format!("depth {} {}", rng.below(n_cells as u64), rng.pick(&DEPTH_EDGES)));
+            continue;
+        }
+        let k = if rng.chance(5) { 9 } else { rng.below(n_keys as u64) };
+        seq = next_seq(rng, seq);
+        if rng.chance(10) {
+            let dirty = class != 3 && rng.chance(30);
+            let (b, a) = if dirty { (any(rng, max_levels), any(rng, max_levels)) } else { (clean(rng, keep), clean(rng, keep)) };
+            out.line(format!("snap {k} {seq} {} | {} | {}", time_of(rng), b.join(" "), a.join(" ")));
+        } else {
+            let (b, a) = match rng.below(4) {
+                0 => (any(rng, max_levels), vec![]),
+                1 => (vec![], any(rng, max_levels)),
+                _ => (any(rng, max_levels), any(rng, max_levels)),
+            };
+            out.line(format!("upd {k} {seq} {} | {} | {}", time_of(rng), b.join(" "), a.join(" ")));
+        }
+        if rng.chance(run_pct) {
+            out.line(if rng.chance(30) { "runc" } else { "run" });
+        }
+    }
+    out.line(if rng.chance(50) { "runc" } else { "run" });
+    out.line(format!("depth {} {}", rng.below(n_cells as u64), rng.pick(&DEPTH_EDGES)));
+}
+
 fn generate(seed: u64, n_cases: usize, tier: &str) {
     let mut out = Out::new();
     let mut rng = Rng::new(seed);
@@ -543,6 +725,13 @@ fn generate(seed: u64, n_cases: usize, tier: &str) {
         } else {
             manager_case(&mut out, &mut rng, thorough);
         }
+    }
+    // input-domain family: one case per five random ones, from its own random stream
+    let mut drng = Rng::new(seed ^ 0xD0_5D05);
+    for j in 0..n_cases / 5 {
+        id += 1;
+        out.case(format!("d{id}"));
+        domain_case(&mut out, &mut drng, j);
     }
     out.flush();
 }
